@@ -203,10 +203,22 @@ class MonitoredCache(dict):
 
     @staticmethod
     def _dig(mat):
+        """content digest of a cached entry, whatever container the loader chose"""
         h = hashlib.blake2b(digest_size=12)
-        for k in sorted(mat):
-            h.update(k.encode())
-            h.update(np.ascontiguousarray(mat[k]).tobytes())
+
+        def walk(o):
+            if isinstance(o, dict):
+                for k in sorted(o, key=str):
+                    h.update(str(k).encode())
+                    walk(o[k])
+            elif isinstance(o, (list, tuple)):
+                for e in o:
+                    walk(e)
+            elif isinstance(o, np.ndarray):
+                h.update(np.ascontiguousarray(o).tobytes())
+            else:
+                h.update(repr(o).encode())
+        walk(mat)
         return h.hexdigest()
 
     def __getitem__(self, k):
@@ -221,10 +233,12 @@ class MonitoredCache(dict):
         return v
 
     def __setitem__(self, k, v):
-        if isinstance(v, dict):
-            for arr in v.values():
-                if isinstance(arr, np.ndarray):
+        for arr in (v.values() if isinstance(v, dict) else v if isinstance(v, (list, tuple)) else [v]):
+            if isinstance(arr, np.ndarray):
+                try:
                     arr.setflags(write=False)      # write trap: in-place edits raise at the fault
+                except ValueError:
+                    pass
         with _LOCK:
             self.events.append(('set', k, threading.current_thread().name))
         super().__setitem__(k, v)
